@@ -86,6 +86,32 @@ def obligations(tier, seed=0):
         if tier == 'thorough':
             p['_t'] = 120
         obs.append((FP + 'restore', p))
+    # fp has no precision state of its own, but its entry points share their source with mp's and some delegate to the global
+    # mp context (ctx._mp): entered with ctx = fp, the watched slots are mp's -- an fp computation must leave mp's precision
+    # alone (cf. C38).  Quick tier: entry points whose own body writes the precision; thorough: all.
+    from checks.fam_prec import writers
+    import ast as _ast
+    from pysym import srcmap as _srcmap
+    helper_names = {qn.split('.')[-1] for _, qn, _ in writers()}
+
+    def calls_helper(f):
+        try:
+            node, _ = _srcmap.lookup(f)
+        except Exception:
+            return False
+        for x in _ast.walk(node):
+            if isinstance(x, _ast.Call):
+                nm = getattr(x.func, 'id', getattr(x.func, 'attr', None))
+                if nm in helper_names:
+                    return True
+        return False
+    for n in entry_points('fp'):
+        f = getattr(getattr(mpmath.fp, n), '__func__', getattr(mpmath.fp, n))
+        if tier == 'thorough' or touches(f) or calls_helper(f):
+            p = dict(ctx='fp', name=n)
+            if tier == 'thorough':
+                p['_t'] = 120
+            obs.append((FP + 'restore', p))
     # the interval context has its own precision slots (iv._prec[0], iv._dps) and setters; most entry points share their
     # source with mp's.  Quick tier: those whose own body writes the precision; thorough tier: all of them.
     for n in entry_points('iv'):
